@@ -141,16 +141,7 @@ fn apply(ext: &mut Extensions, e: &Edit, idx: usize, log: &Log) -> Option<()> {
                 }),
                 mk(),
             );
-            // get_present_fn returns the *file* map: the final priority is read from the Debug listing
-            let dbg = format!("{ext:?}");
-            let pat = format!("(\"{name}\" with priority ");
-            if let Some(p) = dbg.find(&pat) {
-                let rest = &dbg[p + pat.len()..];
-                let end = rest.find(',').unwrap_or(rest.len());
-                if let Ok(v) = rest[..end].trim().parse::<i128>() {
-                    *keep.prio.lock().unwrap() = v;
-                }
-            }
+            fix_prio(&keep, ext.get_present_fn().iter().map(|t| &t.0), name);
         }
         3 if remove => ext.remove_package(mk()),
         3 => {
